@@ -234,6 +234,11 @@ def r1_standard(ctx):
         okl = bool(lose) and not missing and not extra
         if not getattr(ctx, 'helpers_present', True):
             continue            # decided by R1-rights-lost on the inlined effect
+        if not okl:
+            # not the two helper calls OR-ed together on this path (a fast path that skips them, a guard around them): left to
+            # R1-rights-lost, which decides the rights lost on the inlined effect for every input cell
+            ctx.rights_deferred = True
+            continue
         ctx.ob(rule, name, tag + ': rights lost (over all lose_castle_rights calls) = moved(mover, from) | taken(removed(to), to)', okl,
                found=[show(a[1]) for a in lose], expected=sorted(show(x) for x in want_terms),
                why='rights are lost exactly when king/home rook moves or a home rook is captured')
@@ -257,7 +262,7 @@ def r1_rights_semantic(ctx, R):
 
     def const_masks(paths_):
         for o_ in paths_:
-            lose_ = [a for m, a, u in board_calls(o_) if m == 'lose_castle_rights']
+            lose_ = [a for m, a, u in board_calls(o_) if m == 'lose_castle_rights'] + [(a[0], C(0)) for m, a, u in board_calls(o_) if m == 'preserve_castle_rights']
             if not lose_ or not all(is_const(a[1]) for a in lose_):
                 return False
         return True
@@ -282,9 +287,10 @@ def r1_rights_semantic(ctx, R):
     for o in oks:
         calls = board_calls(o)
         rem = [(a, u) for m, a, u in calls if m == 'remove']
-        lose = [a for m, a, u in calls if m == 'lose_castle_rights']
+        # (a fast path that calls preserve_castle_rights() loses the empty set of rights on that path)
+        lose = [a for m, a, u in calls if m == 'lose_castle_rights'] + [(a[0], C(0)) for m, a, u in calls if m == 'preserve_castle_rights']
         if len(rem) != 2 or not lose or not all(is_const(a[1]) for a in lose):
-            if getattr(ctx, 'helpers_present', False):
+            if getattr(ctx, 'helpers_present', False) and not getattr(ctx, 'rights_deferred', False):
                 # the helpers do not fold on symbolic arguments (they iterate over a table): they were tabulated on their whole domain above and
                 # R1-standard-effect checked that apply loses exactly moved(..) | taken(..)
                 ctx.ob(rule, name, 'rights lost: decided by the helper tables and the effect shape', True, nontrivial=False)
